@@ -203,6 +203,11 @@ func c15(e *Env) {
 	}
 	// ---- R4 missing values
 	e.c15Missing()
+	// ---- R6 the substituted text comes from the port's value (value flow per arm)
+	e.fmtValueFlow("R6")
+	e.setOutValueFlow("R6")
+	// ---- R7 port discovery from the command pattern
+	e.portDiscovery("R7")
 	// ---- R5 order determinism
 	ob5 := r.Ob("R5", "default-path:order", "the default output name is built from sorted keys only (no direct map range reaches it)")
 	// the default path functions: the function values stored into Process.PathFuncs while a process is built
@@ -264,6 +269,7 @@ func c15(e *Env) {
 		if gd == nil {
 			continue
 		}
+		e.defaultPathCoverage("R5", fn)
 		nr := 0
 		for _, n := range gd.Nodes {
 			rg, ok := n.Instr.(*ssa.Range)
@@ -632,4 +638,103 @@ func lenDiff(v, x ssa.Value) ssa.Value {
 		return nil
 	}
 	return lenArg(bo.Y)
+}
+
+// portDiscovery (C15.R7, shared as C16.R7): NewProc derives the ports of a process from the placeholders of its command
+// pattern: for every {o:}/{os:} an out-port (marked streaming for os), for every {i:} an in-port, for every {p:} a
+// parameter in-port. A placeholder without its port is not covered by the readiness check: a workflow that forgets to
+// connect it is not refused but fails (or hangs) after upstream commands have run. Decided by scenario on NewProc's
+// expanded call tree: under "the port's type field is T", every iteration of the loop over the discovered ports
+// reaches the initialisation of the right kind of port.
+func (e *Env) portDiscovery(rule string) {
+	r := e.R
+	p := e.P
+	fi := e.formatter()
+	first := r.Ob(rule, "NewProc:port[o]", "every {o:} placeholder of the command pattern gets an out-port")
+	np := p.Func("NewProc")
+	if np == nil || fi.tagField == nil {
+		first.Unknown("-", "NewProc or the placeholder-type field not found")
+		return
+	}
+	g := e.XG(np)
+	if g == nil {
+		return
+	}
+	initCall := func(name string) func(*core.Node) bool {
+		return func(n *core.Node) bool {
+			return n.Kind != core.KAfter && n.Callee != nil && n.Callee.Name() == name && p.IsLib(n.Callee)
+		}
+	}
+	pinfo := p.Named("scipipe", "PortInfo")
+	isStreamMark := func(n *core.Node) bool {
+		// the streaming mark: `true` stored into a bool field of PortInfo that is not the join flag (by role, not by name)
+		st, ok := n.Instr.(*ssa.Store)
+		if !ok || pinfo == nil {
+			return false
+		}
+		fa, ok := st.Addr.(*ssa.FieldAddr)
+		if !ok || typeNamed(fa.X.Type()) != pinfo || fieldOfAddr(fa) == fi.joinFld || !isBoolType(fieldOfAddr(fa).Type()) {
+			return false
+		}
+		k, ok := st.Val.(*ssa.Const)
+		return ok && k.Value != nil && constant.BoolVal(k.Value)
+	}
+	for _, c := range []struct {
+		T, desc string
+		is      func(*core.Node) bool
+		what    string
+	}{
+		{"o", "every {o:} placeholder of the command pattern gets an out-port", initCall("InitOutPort"), "InitOutPort"},
+		{"os", "every {os:} placeholder gets an out-port", initCall("InitOutPort"), "InitOutPort"},
+		{"os:stream", "the port of every {os:} placeholder is marked as streaming", isStreamMark, "PortInfo.doStream = true"},
+		{"i", "every {i:} placeholder gets an in-port", initCall("InitInPort"), "InitInPort"},
+		{"p", "every {p:} placeholder gets a parameter in-port (so that a forgotten connection is refused before anything runs)", initCall("InitInParamPort"), "InitInParamPort"},
+	} {
+		ob := r.Ob(rule, "NewProc:port["+c.T+"]", c.desc)
+		T := strings.TrimSuffix(c.T, ":stream")
+		assume := core.Scenario{FieldLoad: func(f *types.Var) (core.AV, bool) {
+			if f == fi.tagField {
+				return core.StrAV(T), true
+			}
+			return core.Top, false
+		}, InstrResult: func(m *core.Node) (core.AV, bool) {
+			// a parameter placeholder whose value is NOT given statically (no entry in the constructor's value table):
+			// that is the case in which a port is needed
+			if lk, ok := m.Instr.(*ssa.Lookup); ok && lk.CommaOk {
+				if mt, ok := lk.X.Type().Underlying().(*types.Map); ok {
+					if b, ok := mt.Elem().Underlying().(*types.Basic); ok && b.Kind() == types.String {
+						return core.TupleAV(core.StrAV(""), core.BoolAV(false)), true
+					}
+				}
+			}
+			return core.Top, false
+		}}
+		sites := g.Select(c.is)
+		if len(sites) == 0 {
+			ob.Fail(core.FuncName(np), "nothing in NewProc's call tree performs "+c.what+": a {"+T+":…} placeholder has no port, an unconnected one is not noticed by the readiness check")
+			continue
+		}
+		okAny := false
+		for _, n := range sites {
+			las := iterLoops(g, n)
+			if len(las) == 0 {
+				continue
+			}
+			// under the assumption the node is reachable at all ...
+			sc := assume
+			sc.Start, sc.AtEntry = g.Entry, true
+			if g.Run(sc).Reaches(func(m *core.Node) bool { return m == n }) == nil {
+				continue
+			}
+			// ... and every iteration performs it
+			tmp := &core.Obligation{}
+			if e.forAllIn(tmp, g, las[0], n, c.is, assume, c.what) {
+				okAny = true
+				ob.OK(g.Where(n), c.what+" for every discovered port of type "+T)
+			}
+		}
+		if !okAny {
+			ob.Fail(g.Where(sites[0]), "with the port's type field = \""+T+"\" an iteration of the loop over the discovered ports can end without "+c.what+" (wrong test, or the call is missing for this type)")
+		}
+	}
 }
